@@ -211,6 +211,9 @@ def children(n):
             for x in v:
                 if isinstance(x, dict) and "k" in x:
                     yield x
+        elif isinstance(v, dict) and "k" in v:
+            # Case/Default carry their single sub-statement as a dict under "s"
+            yield v
     if n.get("k") == "Decl":
         for vd in n.get("vars", []):
             yield vd
